@@ -80,7 +80,7 @@ def _grid():
     return tile_grid(3857, origin='ll')
 
 
-def all_backends():
+def all_backends(extra=False):
     from mapproxy.cache.file import FileCache
     from mapproxy.cache.mbtiles import MBTilesCache, MBTilesLevelCache
     from mapproxy.cache.geopackage import GeopackageCache, GeopackageLevelCache
@@ -101,6 +101,16 @@ def all_backends():
     bs.append(Backend('geopackage-level', lambda d: GeopackageLevelCache(os.path.join(d, 'c'), _grid(), 'tiles')))
     bs.append(Backend('compact-v1', lambda d: CompactCacheV1(os.path.join(d, 'c'))))
     bs.append(Backend('compact-v2', lambda d: CompactCacheV2(os.path.join(d, 'c'))))
+    if extra:
+        # the cache directory is reached through a symbolic link that lives at another depth than what it points to
+        # (a cache moved to another volume): the links of single-colour tiles have to work from where the tiles really are
+        def via_link(d):
+            real = os.path.join(d, 'mnt', 'volume1', 'tiles', 'osm')
+            if not os.path.isdir(real):
+                os.makedirs(real)
+                os.symlink(real, os.path.join(d, 'c'))
+            return FileCache(os.path.join(d, 'c'), 'png', link_single_color_images=True)
+        bs.append(Backend('file-tc-symlink-moved', via_link, dims=True, links=True))
     return bs
 
 
